@@ -1158,7 +1158,7 @@ NP = {
     "argmax": t_index, "argmin": t_index, "nanargmin": t_index, "nanargmax": t_index, "argsort": lambda a, k, n: Deg({()}, getattr(_a(a), "rank", None)),
     "where": t_where, "sum": t_reduce, "nansum": t_reduce, "mean": t_reduce, "nanmean": t_reduce, "max": t_minmax, "min": t_minmax,
     "amax": t_minmax, "amin": t_minmax, "nanmax": t_minmax, "nanmin": t_minmax, "std": t_reduce, "nanstd": t_reduce, "median": t_reduce,
-    "maximum": t_join_all, "minimum": t_join_all,
+    "maximum": t_join_all, "minimum": t_join_all, "fmin": t_join_all, "fmax": t_join_all,
     "arange": t_arange, "linspace": t_linspace, "moveaxis": t_moveaxis, "swapaxes": t_moveaxis, "diff": t_same, "sign": t_sign,
     "unique": t_flat, "isnan": t_boolarr, "isfinite": t_boolarr, "isinf": t_boolarr, "iscomplex": t_boolarr,
     "isclose": t_isclose, "allclose": t_isclose, "ravel": t_flat, "expand_dims": t_expand, "repeat": t_same, "tile": t_same,
